@@ -156,6 +156,23 @@ def generate(repo):
         return len(copies) >= 1 and ".read()" not in rest
     item("scan_one_lock", True, scan_one_lock)
 
+    def index_visible():
+        # put_durable registers a new key in the entity index before its value is applied: exists and scan
+        # must not report such a key before get finds it
+        _, sc = find_fn(src, "scan", after=r"impl\s+SlabRouter\b")
+        _, ex = find_fn(src, "exists", after=r"impl\s+SlabRouter\b")
+        scan_ok = re.search(r"for\s*\(key,\s*_\)\s*in\s*self\.index\.scan_prefix\(prefix\)\s*\{\s*if\s+[^{]*self\.exists\(&key\)", sc) is not None
+        arm = arms(ex)["Embedding"] if "match Self::classify_key(key)" in ex else ""
+        ex_ok = "self.index.contains(key)" not in arm and re.search(r"self\.metadata\.contains\(key\)", arm) is not None and "self.embeddings.contains(" in arm
+        return scan_ok and ex_ok
+    item("index_entry_visible_only_with_value", True, index_visible)
+
+    def next_prefix_on_chars():
+        ms = strip_comments(read(repo, "tensor_store/src/metadata_slab.rs"))
+        _, body = find_fn(ms, "next_prefix")
+        return "prefix.chars()" in body and "char::from_u32" in body and "from_utf8(" not in body
+    item("next_prefix_on_chars", True, next_prefix_on_chars)
+
     def id_alloc_locked():
         _, body = find_fn(src, "put_durable", after=r"impl\s+SlabRouter\b")
         lock = re.search(r"\.lock\(\)", body)
@@ -164,6 +181,35 @@ def generate(repo):
         # must happen under the WAL guard, i.e. in log order too
         return lock is not None and all(a > lock.start() for a in alloc)
     item("durable_id_alloc_locked", True, id_alloc_locked)
+
+    def bloom_add_first():
+        lib = strip_comments(read(repo, "tensor_store/src/lib.rs"))
+        for fn in ("put", "put_durable"):
+            _, body = find_fn(lib, fn, after=r"impl\s+TensorStore\b")
+            a = body.find("filter.add(&key)")
+            w = body.find("self.router")
+            # the key must be admissible to get/exists before a scan can list it
+            if a < 0 or w < 0 or a > w:
+                return False
+        return True
+    item("bloom_add_before_write", True, bloom_add_first)
+
+    def replay_registers_like_put_durable():
+        _, body = find_fn(src, "apply_wal_entry", after=r"impl\s+SlabRouter\b")
+        m = re.search(r"WalEntry::MetadataSet\s*\{[^}]*\}\s*=>\s*\{", body)
+        if not m:
+            return False
+        arm = body[m.end():body.find("WalEntry::MetadataDelete", m.end())]
+        # put_durable allocates an entity id for EVERY key whose value carries an `_embedding`; replay must do the
+        # same (positional ids): the `_embedding` branch calls get_or_create outside any embedding-class test
+        emb = re.search(r"if\s+let\s+Some\(TensorValue::Vector\(\w+\)\)\s*=\s*data\.get\(\"_embedding\"\)\s*\{\s*let\s+entity_id\s*=\s*self\.index\.get_or_create\(key\)", arm)
+        if not emb:
+            return False
+        before = arm[:emb.start()]
+        # that branch must not sit inside `if classify_key(key) == Embedding { ... }`
+        opens = before.count("{") - before.count("}")
+        return opens == 0
+    item("replay_registers_like_put_durable", True, replay_registers_like_put_durable)
 
     def bloom_add_rmw():
         lib = strip_comments(read(repo, "tensor_store/src/lib.rs"))
@@ -197,8 +243,16 @@ def generate(repo):
     text += "Definition gen_emb_locked : bool := %s.\n" % ("true" if out["emb_locked"] else "false")
     text += "(* MetadataSlab::scan (non-empty prefix) copies keys and values under ONE acquisition of the shard lock *)\n"
     text += "Definition gen_scan_one_lock : bool := %s.\n" % ("true" if out["scan_one_lock"] else "false")
+    text += "(* exists (embedding keys) and the index part of scan report a key only when get would find it *)\n"
+    text += "Definition gen_index_entry_visible_only_with_value : bool := %s.\n" % ("true" if out["index_entry_visible_only_with_value"] else "false")
+    text += "(* MetadataSlab::next_prefix increments the last CHARACTER of the prefix (never yields invalid UTF-8) *)\n"
+    text += "Definition gen_next_prefix_on_chars : bool := %s.\n" % ("true" if out["next_prefix_on_chars"] else "false")
     text += "(* put_durable allocates the entity id of an embedding under the WAL guard (log order = allocation order) *)\n"
     text += "Definition gen_durable_id_alloc_locked : bool := %s.\n" % ("true" if out["durable_id_alloc_locked"] else "false")
+    text += "(* TensorStore::put / put_durable feed the Bloom filter BEFORE the router write *)\n"
+    text += "Definition gen_bloom_add_before_write : bool := %s.\n" % ("true" if out["bloom_add_before_write"] else "false")
+    text += "(* apply_wal_entry(MetadataSet) allocates an entity id for every value carrying `_embedding`, as put_durable does *)\n"
+    text += "Definition gen_replay_registers_like_put_durable : bool := %s.\n" % ("true" if out["replay_registers_like_put_durable"] else "false")
     text += "(* BloomFilter::add sets each bit with one atomic fetch_or (no load + store) *)\n"
     text += "Definition gen_bloom_add_fetch_or : bool := %s.\n" % ("true" if out["bloom_add_fetch_or"] else "false")
     text += "(* CacheRing::get compares the slot entry's key before returning its value *)\n"
